@@ -334,7 +334,11 @@ func (ft *FT) call(st *State, guard Term, c *ssa.CallCommon, preArgs []Term, ins
 	}
 	name, callee, closure := ft.callName(c)
 	if c.IsInvoke() {
-		ft.safety("nil", pos, guard, not(eq(app("dyn", args[0]), "0")))
+		if ft.nonnilInterface(c.Value.Type()) {
+			ft.note("assumed: a " + c.Value.Type().String() + " on which a method is called is not the nil interface (decl nonnil)")
+		} else {
+			ft.safety("nil", pos, guard, not(eq(app("dyn", args[0]), "0")))
+		}
 	}
 	if ft.con != nil && ft.con.CallPre != nil {
 		if cls := ft.con.CallPre[name]; len(cls) > 0 {
@@ -366,9 +370,14 @@ func (ft *FT) call(st *State, guard Term, c *ssa.CallCommon, preArgs []Term, ins
 			for _, cl := range cls {
 				t, err := ctx.boolExpr(cl.Expr)
 				if err != nil {
+					if cl.WhereDefined && strings.Contains(err.Error(), "unknown identifier") {
+						cl.skipped = err.Error()
+						continue
+					}
 					ft.errf("callpre %s %q: %v", name, cl.Text, err)
 					continue
 				}
+				cl.sites++
 				ft.oblige("pre@call", pos, fmt.Sprintf("%s: %s", name, cl.Text), guard, t, true)
 			}
 		}
@@ -445,7 +454,7 @@ func (ft *FT) call(st *State, guard Term, c *ssa.CallCommon, preArgs []Term, ins
 					k := ft.elemKey(sl.Elem())
 					ft.set(st, k, app("store", ft.get(st, k), base, app(rowf, args...)))
 					ln := app(lenf, args...)
-					ft.assume("true", and(app("<=", "0", ln), app("<=", ln, "4611686018427387904")))
+					ft.assume("true", and(app("<=", "0", ln), app("<=", ln, "1152921504606846976")))
 					rs = append(rs, ft.nameTerm("call", "Slice", app("mk-slice", base, "0", ln, ln)))
 					continue
 				}
@@ -1075,10 +1084,29 @@ func (ft *FT) builtin(st *State, guard Term, b *ssa.Builtin, c *ssa.CallCommon, 
 	case "copy":
 		sl := c.Args[0].Type().Underlying().(*types.Slice)
 		k := ft.elemKey(sl.Elem())
-		ft.freshVersion(st, k)
-		ft.note("copy(): destination contents unconstrained")
+		es := ft.d.sortOf(sl.Elem())
+		E := ft.get(st, k)
+		dst := args[0]
 		r := ft.fresh("copy", "Int")
-		ft.assume("true", and(app("<=", "0", r), app("<=", r, app("sl-len", args[0]))))
+		if _, srcIsSlice := c.Args[1].Type().Underlying().(*types.Slice); srcIsSlice {
+			src := args[1]
+			ft.assume("true", eq(r, ite(app("<=", app("sl-len", dst), app("sl-len", src)), app("sl-len", dst), app("sl-len", src))))
+			row := ft.fresh("copyrow", arraySort("Int", es))
+			old := sel(E, app("sl-base", dst))
+			// only dst[0:n) changes, and it receives src[0:n) (as it was before the copy)
+			ft.assume("true", forall([][2]string{{"i", "Int"}}, "(! "+eq(app("select", row, "i"),
+				ite(and(app("<=", app("sl-off", dst), "i"), app("<", "i", app("+", app("sl-off", dst), r))),
+					sel(E, app("sl-base", src), app("+", app("sl-off", src), app("-", "i", app("sl-off", dst)))),
+					app("select", old, "i")))+" :pattern ((select "+row+" i)))"))
+			ft.set(st, k, app("store", E, app("sl-base", dst), row))
+			return []Term{r}
+		}
+		// copy(bytes, string): destination row unconstrained inside the slice, unchanged outside
+		row := ft.fresh("copyrow", arraySort("Int", es))
+		old := sel(E, app("sl-base", dst))
+		ft.assume("true", and(app("<=", "0", r), app("<=", r, app("sl-len", dst))))
+		ft.assume("true", forall([][2]string{{"i", "Int"}}, "(! "+implies(or(app("<", "i", app("sl-off", dst)), app(">=", "i", app("+", app("sl-off", dst), r))), eq(app("select", row, "i"), app("select", old, "i")))+" :pattern ((select "+row+" i)))"))
+		ft.set(st, k, app("store", E, app("sl-base", dst), row))
 		return []Term{r}
 	case "close":
 		ft.keySort("CLOSED", arraySort("Int", "Bool"))
@@ -1179,7 +1207,7 @@ func (ft *FT) appendOp(st *State, guard Term, c *ssa.CallCommon, args []Term, po
 	}
 	realloc := app("store", E, r, arr)
 	cp := ft.fresh("appcap", "Int")
-	ft.assume("true", and(app("<=", newLen, cp), app("<=", cp, "4611686018427387904")))
+	ft.assume("true", and(app("<=", newLen, cp), app("<=", cp, "1152921504606846976")))
 	nE := ft.fresh("appE", ft.heaps[k].sort)
 	ft.asserts = append(ft.asserts, "(assert "+eq(nE, ite(fits, inplace, realloc))+")")
 	ft.set(st, k, nE)
@@ -1279,14 +1307,21 @@ func immutablePointee(t types.Type) bool {
 
 // inertInterface: the contract files declare (`decl inert T`) that method calls through interface T do not modify
 // contract-visible memory (an assumption, listed in the evidence).
-func (ft *FT) inertInterface(t types.Type) bool {
+func (ft *FT) inertInterface(t types.Type) bool { return ft.declared("inert", t) }
+
+// nonnilInterface: `decl nonnil T` - values of interface type T are assumed never to be the nil interface where a
+// method is called through them (an unverified type invariant, listed in the evidence; kinds in contracts still
+// treat nil as a value of its own).
+func (ft *FT) nonnilInterface(t types.Type) bool { return ft.declared("nonnil", t) }
+
+func (ft *FT) declared(what string, t types.Type) bool {
 	n, ok := types.Unalias(t).(*types.Named)
 	if !ok || n.Obj().Pkg() == nil {
 		return false
 	}
 	for _, d := range ft.eng.cons.Decls[pkgKey(n.Obj().Pkg())] {
 		f := strings.Fields(d)
-		if len(f) == 2 && f[0] == "inert" && f[1] == n.Obj().Name() {
+		if len(f) == 2 && f[0] == what && f[1] == n.Obj().Name() {
 			return true
 		}
 	}
